@@ -714,6 +714,9 @@ def plan(tier, seed):
     items.append({"kind": "partition", "ns": small})
     for n in range(9, t["part_n"] + 1):
         items.append({"kind": "partition", "ns": [n]})
+    # sparse probes far above the exhaustive range (production sizes: 100-1000 posterior samples, 50 chunks)
+    items.append({"kind": "partition-sparse", "cases": [[33, c] for c in (1, 2, 7, 32, 33, 34, 50, 527, 528, 529)] +
+                  [[100, c] for c in (1, 3, 50, 99, 100, 101, 4949, 4950, 4951)] + [[300, c] for c in (50, 299, 301)]})
     items.append({"kind": "metric", "alphabet": t["alphabet"], "max_len": 3})
     items.append({"kind": "densify", "ns": list(range(0, t["dens_n"] + 1))})
     for n in range(0, t["asm_n"] + 1):
@@ -735,7 +738,10 @@ def plan(tier, seed):
 
 def run_item(item, col, tier):
     kind = item["kind"]
-    if kind == "partition":
+    if kind == "partition-sparse":
+        for n, n_chunks in item["cases"]:
+            check_partition(col, n, n_chunks)
+    elif kind == "partition":
         for n in item["ns"]:
             pairs = n * (n - 1) // 2
             for n_chunks in range(1, pairs + 3):
